@@ -86,6 +86,28 @@ def main():
                 "why": "a program reading back the members of a structure/word literal: expected exit status %d (oracle: weighted sum of "
                        "the member values), got %s" % (status, ans[:200]),
                 "source": src, "harness_request": "alpha\trun\tmain.pn\t" + esc(src), "oracle": "checks/agggen.py"})
+    # access paths: nested arrays, structures with array members, arrays of structures, written and read directly and
+    # through every kind of parameter (pointer to a sized array, slice pointer, view, pointer to / view of a structure),
+    # with the lengths of inner arrays; one printed number against a Python oracle
+    accs = [agggen.access_program(rng.fork("acc%d" % i)) for i in range(4000 if rep.tier == "thorough" else 250)]
+    xh = runlib.impl_run([a[0] for a in accs])
+    for (src, want, tags), ans in zip(accs, xh):
+        v = runlib.impl_obs(ans)
+        dist["access:" + tags[0]] += 1
+        if v[0] == "ok" and v[2] == want:
+            agreeing += 1
+        else:
+            rep.violation("oracle:access:%x" % hash_str(src), {
+                "why": "a program that writes and reads a nested value along access paths (%s): expected it to print %s, got %s" % (
+                    ", ".join(sorted(set(tags[2:]))[:12]), want, ans[:200]),
+                "source": src, "harness_request": "alpha\trun\tmain.pn\t" + esc(src), "oracle": "checks/agggen.py access_program"})
+    # F51: the address of an element of an array VARIABLE (`&g[1]`; through a member, `&s.items[1]`, it is accepted)
+    probe = "fn bump(r: &i32)\n{\n\tr = r + 1;\n}\nfn main() -> i32\n{\n\tvar g: [3]i32 = [1, 2, 3];\n\tbump(&g[1]);\n\treturn: g[1]\n}\n"
+    pa = runlib.impl_run([probe])[0]
+    pv = runlib.impl_obs(pa)
+    if not (pv[0] == "ok" and pv[1] == "3"):
+        rep.violation("c01:false-rejection:address-of-element-of-array-variable", {
+            "why": "`bump(&g[1])` with `g: [3]i32` and `fn bump(r: &i32)` should compile and return 3: " + pa[:200], "source": probe})
     # control flow: skeleton programs of opaque actions and oracle-driven conditions (blocks, if / else / else-if, forward
     # gotos, labels, blocks ending in `loop`).  Three observations must coincide: the trace the real program prints, the trace
     # of the source semantics (CF.execL) and the trace of the flow graph the Lean lowering produces (CF.run); and the basic
